@@ -319,10 +319,10 @@ impl Check for C20 {
         // session sends are synchronous inside the sender's macrostep: wait for its 'sent' marks
         let n_from = sc.reqs.iter().filter(|(r, _)| matches!(r, Req::FromSession { .. })).count();
         let tx_id = scen.id(tx);
-        let sent_ok = scen.wait_until(Duration::from_secs(20), |l| l.count(tx_id, "sent") >= n_from);
+        let sent_ok = scen.wait_progress(Duration::from_secs(20), |l| l.count(tx_id, "sent") >= n_from);
         // sentinel
         scen.send_name(rx, "zz.sentinel");
-        let got_sentinel = scen.wait_until(Duration::from_secs(10), |l| l.recs.lock().unwrap().iter().any(|m| m.session == rx_id && m.tag == "rx" && m.args.first().map(|a| a == "zz.sentinel").unwrap_or(false)));
+        let got_sentinel = scen.wait_progress(Duration::from_secs(10), |l| l.recs.lock().unwrap().iter().any(|m| m.session == rx_id && m.tag == "rx" && m.args.first().map(|a| a == "zz.sentinel").unwrap_or(false)));
         let (ended, panics) = finish(&mut scen);
         {
             let mut st = scen.exec.state.lock().unwrap();
